@@ -27,7 +27,7 @@ theorem step_inv_subSeeCancel {c : Cfg} {s s' : St} (h : Inv s) (i : SubId) (hs 
   · simp at hs
 
 theorem step_inv_cancel {c : Cfg} {s s' : St} (h : Inv s) (i : SubId) (hs : step c s (.cancel i) = some s') : Inv s' := by
-  simp only [step, Option.some.injEq] at hs; subst hs
+  simp only [step] at hs; split at hs <;> simp at hs; subst hs
   exact inv_setSub h i _ rfl (fun x => x) (fun r hr => h.ret i r hr)
 
 theorem step_inv_subRecv {c : Cfg} {s s' : St} (h : Inv s) (i : SubId) (hs : step c s (.subRecv i) = some s') : Inv s' := by
@@ -334,7 +334,7 @@ theorem step_inv {c : Cfg} {s s' : St} (h : Inv s) (l : Label) (hs : step c s l 
     · simp only [Option.some.injEq] at hs; subst hs; exact inv_setShut h _ _
     · simp at hs
   | shutCancel k =>
-    simp only [step, Option.some.injEq] at hs; subst hs; exact inv_setShut h _ _
+    simp only [step] at hs; split at hs <;> simp at hs; subst hs; exact inv_setShut h _ _
 
 theorem reachable_inv {c : Cfg} {s : St} (h : Reachable c s) : Inv s := by
   induction h with
